@@ -208,6 +208,7 @@ class EMG(Block):
             self.frequency == other.frequency
             and self.startTime == other.startTime
             and self.nSamples == other.nSamples
+            and len(self._signals) == len(other._signals)
             and all(s1 == s2 for s1, s2 in zip(self._signals, other._signals))
         )
 
